@@ -105,7 +105,8 @@ def make_fp(spec):
     """Real object from a spec {"kind","bits","level","idx","cnt"} (a model-format dump)."""
     k = spec["kind"]
     if k == "bit":
-        return Fingerprint(np.array(spec["idx"], dtype=np.int64), bits=spec["bits"], level=spec["level"])
+        # "raw_idx": the index list as the caller hands it over (repeats, any order); the content is its set
+        return Fingerprint(np.array(spec.get("raw_idx", spec["idx"]), dtype=np.int64), bits=spec["bits"], level=spec["level"])
     counts = {int(i): to_num(v) for i, v in spec["cnt"]}
     return CLS[k](np.array(spec["idx"], dtype=np.int64), counts=counts, bits=spec["bits"], level=spec["level"])
 
